@@ -119,6 +119,12 @@ func genStore(rng *rand.Rand, uncompressed bool, local bool) (objs []object, ids
 			objs = append(objs, object{key: objKey(id, uncompressed), data: form(b, uncompressed), category: "other-format", id: id, valid: true})
 		}
 	}
+	if rng.Intn(6) == 0 {
+		// the chunk of no bytes at all (indexes can carry empty chunks): its content matches its ID like any other's
+		id := dsu.Sum(nil)
+		ids = append(ids, id)
+		objs = append(objs, object{key: objKey(id, !uncompressed), data: form(nil, !uncompressed), category: "own-valid", id: id, ownFmt: true, valid: true})
+	}
 	// junk
 	pick := func() *desync.ChunkID { id := ids[rng.Intn(len(ids))]; return &id }
 	if rng.Intn(2) == 0 {
@@ -632,7 +638,13 @@ func run(c *harness.Ctx, i int) {
 			return
 		}
 	}
+	emptyID := dsu.Sum(nil)
 	for id := range reported {
+		if !want[id] && id == emptyID.String() {
+			// (its own class: see known_findings.txt)
+			c.Violation("verify-false-report:empty-chunk", "verify (n=%d) reported the chunk of no bytes (%s, an empty file in both formats) as invalid: its content matches its ID\n%s", n, id[:12], msgs.String())
+			continue
+		}
 		if !want[id] {
 			c.Violation("verify-false-report", "verify (n=%d) reported chunk %s as invalid, but the object in its canonical place is valid or absent\n%s", n, id[:12], msgs.String())
 			return
@@ -646,6 +658,8 @@ func run(c *harness.Ctx, i int) {
 		case mustGo && present:
 			c.Violation("verify-repair-left", "verify -r left the invalid chunk %q in place", o.key)
 			return
+		case !mustGo && !present && o.id == emptyID && o.ownFmt && o.valid:
+			c.Violation("verify-deleted:empty-chunk", "verify -r removed the chunk of no bytes (%q): its content matches its ID", o.key)
 		case !mustGo && !present && o.category != "misplaced":
 			c.Violation("verify-deleted:"+o.category, "verify (repair=%v) removed %s object %q", repair, o.category, o.key)
 			return
